@@ -676,9 +676,11 @@ func (rc *RegClient) imageCopyOpt(ctx context.Context, refSrc ref.Ref, refTgt re
 					// known blob media type
 					err = rc.imageCopyBlob(ctx, entrySrc, entryTgt, dEntry, opt, bOpt...)
 				default:
-					// unknown media type, first try an image copy
-					err = rc.imageCopyOpt(ctx, entrySrc, entryTgt, dEntry, true, parentsNew, opt)
-					if err != nil {
+					// unknown media type, copy as an image when the entry can be read as a manifest
+					if _, errM := rc.ManifestGet(ctx, entrySrc, WithManifestDesc(dEntry)); errM == nil {
+						// a failure below this manifest is a failure of the copy, not a reason to store it as a blob
+						err = rc.imageCopyOpt(ctx, entrySrc, entryTgt, dEntry, true, parentsNew, opt)
+					} else {
 						// fall back to trying to copy a blob
 						err = rc.imageCopyBlob(ctx, entrySrc, entryTgt, dEntry, opt, bOpt...)
 					}
